@@ -19,5 +19,8 @@ MC_W5 == << <<P(1, 0, FALSE)>>, <<P(1, 1, FALSE), P(1, 1, FALSE)>>, <<P(2, 0, FA
 \* W6: out-of-order data is still queued when an in-order FIN closes the connection; an age flush with a stale snapshot runs concurrently
 MC_W6 == << <<P(1, 0, FALSE), PO(1, 0, FALSE), P(1, 0, TRUE)>>, <<P(0, 1, FALSE)>>, <<P(2, 0, FALSE)>> >>
 
+\* W7: an in-order FIN closes the connection while an age flush (CloseAll) holds it in its snapshot
+MC_W7 == << <<P(1, 0, FALSE), P(1, 0, TRUE)>>, <<P(0, 1, FALSE)>>, <<P(2, 0, FALSE)>> >>
+
 Export == AllDone => PrintT("BEH " \o ToJson([progs |-> Progs, sched |-> sched, panic |-> panic, mis |-> misdelivered]))
 =============================================================================
